@@ -37,6 +37,9 @@ STACK_BASE = 0x8000
 CODE_BASE = 0x100       # function "addresses": CODE_BASE + 4*index
 
 
+_PROV = "__provenance__"     # env key: {IR value: Region}
+
+
 def _decide(cond):
     c = z3.simplify(cond)
     if z3.is_true(c):
@@ -110,7 +113,8 @@ class IrSem:
         self.ub = []
         self.trace = []
         self.regions = []
-        self.prov = {}      # z3 term id -> Region the pointer was derived from (pointer provenance)
+        # pointer provenance is tracked per IR value (env[_PROV]: IR value -> Region it was derived from);
+        # never per z3 term: constants are hash-consed, equal addresses would share provenance
         self.escaped = set()  # stack regions whose address was stored to memory / handed to an external
         self.mem = z3.K(z3.BitVecSort(ptr_bits), z3.BitVecVal(0, 8))
         self.gaddr = {}
@@ -170,9 +174,10 @@ class IrSem:
             self.fbyaddr[CODE_BASE + 4 * k] = f
 
     # -- memory ----------------------------------------------------------------------------------
-    def _valid(self, addr, size):
+    def _valid(self, addr, size, home=None):
         conds = []
-        home = self.prov.get(addr.get_id())
+        if home is None:
+            home = getattr(self, "_cur_home", None)
         if home is not None:
             # a pointer derived from an object may only access that object (C 6.5.6p8; also what makes
             # register promotion of non-escaping allocas sound): elsewhere is outside the premise
@@ -188,13 +193,13 @@ class IrSem:
                                     z3.ULE(addr, z3.BitVecVal(r.base + r.size - size, self.pb))))
         return z3.Or(*conds) if conds else z3.BoolVal(False)
 
-    def load(self, addr, nbytes):
-        self.ub.append(z3.Not(self._valid(addr, nbytes)))
+    def load(self, addr, nbytes, home=None):
+        self.ub.append(z3.Not(self._valid(addr, nbytes, home)))
         bs = [z3.Select(self.mem, addr + k) for k in range(nbytes)]
         return z3.Concat(*reversed(bs)) if nbytes > 1 else bs[0]
 
-    def store(self, addr, val, nbytes):
-        self.ub.append(z3.Not(self._valid(addr, nbytes)))
+    def store(self, addr, val, nbytes, home=None):
+        self.ub.append(z3.Not(self._valid(addr, nbytes, home)))
         for k in range(nbytes):
             self.mem = z3.Store(self.mem, addr + k, z3.Extract(8 * k + 7, 8 * k, val))
 
@@ -209,17 +214,23 @@ class IrSem:
         return {r.name: self.region_bytes(r.name) for r in self.regions if r.kind in ("global", "buffer")}
 
     # -- execution -------------------------------------------------------------------------------
-    def call(self, func, args, depth=0):
+    def call(self, func, args, depth=0, arg_homes=None):
         """execute function (ir.SubRoutine) with argument terms; returns result term or None"""
         if isinstance(func, str):
             func = [f for f in self.m.functions if f.name == func][0]
         if depth > self.max_depth:
             raise StepLimit("call depth")
-        env = {}
+        env = {_PROV: {}}
+        if arg_homes is None:
+            arg_homes = getattr(self, "_next_arg_homes", None)
+        self._next_arg_homes = None
         if len(args) != len(func.arguments):
             raise Unsupported("argument count mismatch")
         for p, a in zip(func.arguments, args):
             env[p] = bvv(a, bits_of(p.ty, self.pb))
+        for p, h in zip(func.arguments, arg_homes or ()):
+            if h is not None:
+                env[_PROV][p] = h
         saved_top = self.stack_top
         nregions = len(self.regions)
         block = func.entry
@@ -234,8 +245,13 @@ class IrSem:
                     if prev not in ph.inputs:
                         raise Unsupported(f"phi {ph.name} has no input for predecessor {prev.name if prev else None}")
                     vals.append(self.value(ph.inputs[prev], env, allow_undef=True))
-                for ph, v in zip(phis, vals):
+                homes = [self.home_of(ph.inputs[prev], env) for ph in phis]
+                for ph, v, h in zip(phis, vals, homes):
                     env[ph] = v
+                    if h is not None:
+                        env[_PROV][ph] = h
+                    else:
+                        env[_PROV].pop(ph, None)
             nxt = None
             for ins in block:
                 self.steps += 1
@@ -287,6 +303,15 @@ class IrSem:
             return (a >= b) if s else z3.UGE(a, b)
         raise Unsupported(cond)
 
+    def home_of(self, v, env):
+        """Region the pointer value v was derived from (None = unknown origin)"""
+        if type(v).__name__ == "Variable":
+            for r in self.regions:
+                if r.kind == "global" and r.name == v.name:
+                    return r
+            return None
+        return env.get(_PROV, {}).get(v)
+
     def value(self, v, env, allow_undef=False):
         if v in env:
             r = env[v]
@@ -299,11 +324,7 @@ class IrSem:
             return r
         k = type(v).__name__
         if k == "Variable":
-            t = z3.BitVecVal(self.gaddr[v.name], self.pb)
-            for r in self.regions:
-                if r.kind == "global" and r.name == v.name:
-                    self.prov[t.get_id()] = r
-            return t
+            return z3.BitVecVal(self.gaddr[v.name], self.pb)
         if k in ("Function", "Procedure", "ExternalFunction", "ExternalProcedure"):
             return z3.BitVecVal(self.faddr[v.name], self.pb)
         if k == "ExternalVariable":
@@ -320,12 +341,12 @@ class IrSem:
         elif k == "Binop":
             va, vb = self.value(ins.a, env), self.value(ins.b, env)
             env[ins] = self.binop(ins.operation, va, vb, ins.ty)
-            if ins.operation in ("+", "-") and type(ins.ty).__name__ == "PointerTyp":
-                home = self.prov.get(va.get_id())
+            if ins.operation in ("+", "-"):
+                home = self.home_of(ins.a, env)
                 if home is None and ins.operation == "+":
-                    home = self.prov.get(vb.get_id())
+                    home = self.home_of(ins.b, env)
                 if home is not None:
-                    self.prov[env[ins].get_id()] = home
+                    env[_PROV][ins] = home
         elif k == "Unop":
             a = self.value(ins.a, env)
             bits_of(ins.ty, pb)
@@ -340,8 +361,8 @@ class IrSem:
                 env[ins] = z3.SignExt(n2 - n1, src)
             else:
                 env[ins] = z3.ZeroExt(n2 - n1, src)
-            if src.get_id() in self.prov and n2 >= n1:
-                self.prov[env[ins].get_id()] = self.prov[src.get_id()]
+            if n2 >= n1 and self.home_of(ins.src, env) is not None:
+                env[_PROV][ins] = self.home_of(ins.src, env)
         elif k == "Undefined":
             # poison: flagged as UB where it is read (phis only propagate it)
             env[ins] = ("undef", bits_of(ins.ty, pb))
@@ -357,7 +378,7 @@ class IrSem:
                 env[ins] = z3.BitVecVal(src[1], pb)
                 for r in self.regions:
                     if r.kind == "stack" and r.base == src[1]:
-                        self.prov[env[ins].get_id()] = r
+                        env[_PROV][ins] = r
             else:
                 raise Unsupported("address of non-alloc blob")
         elif k == "LiteralData":
@@ -376,18 +397,31 @@ class IrSem:
             env[ins] = ("blob", a)
         elif k == "Load":
             n = bits_of(ins.ty, pb)
-            env[ins] = self.load(self.value(ins.address, env), n // 8)
+            self._cur_home = self.home_of(ins.address, env)
+            try:
+                env[ins] = self.load(self.value(ins.address, env), n // 8)
+            finally:
+                self._cur_home = None
         elif k == "Store":
             n = bits_of(ins.value.ty, pb)
-            _v = self.value(ins.value, env)
-            if not isinstance(_v, tuple) and _v.get_id() in self.prov and self.prov[_v.get_id()].kind == "stack":
-                self.escaped.add(id(self.prov[_v.get_id()]))
-            self.store(self.value(ins.address, env), self.value(ins.value, env), n // 8)
+            _h = self.home_of(ins.value, env)
+            if _h is not None and _h.kind == "stack":
+                self.escaped.add(id(_h))
+            self._cur_home = self.home_of(ins.address, env)
+            try:
+                self.store(self.value(ins.address, env), self.value(ins.value, env), n // 8)
+            finally:
+                self._cur_home = None
         elif k == "CopyBlob":
             d = self.value(ins.dst, env)
             s = self.value(ins.src, env)
-            data = self.load(s, ins.amount)
-            self.store(d, data, ins.amount)
+            self._cur_home = self.home_of(ins.src, env)
+            try:
+                data = self.load(s, ins.amount)
+                self._cur_home = self.home_of(ins.dst, env)
+                self.store(d, data, ins.amount)
+            finally:
+                self._cur_home = None
         elif k in ("FunctionCall", "ProcedureCall"):
             args = [self.value(a, env) for a in ins.arguments]
             callee = ins.callee
@@ -400,6 +434,8 @@ class IrSem:
                 else:
                     raise Unsupported("indirect call through a non-constant pointer")
             if ck in ("Function", "Procedure"):
+                # (handed over via an attribute: subclasses override call() with the 3-argument signature)
+                self._next_arg_homes = [self.home_of(a, env) for a in ins.arguments]
                 r = self.call(callee, args, depth + 1)
             elif callee.name in self.ext_handlers:
                 r = self.ext_handlers[callee.name](args)
@@ -408,9 +444,10 @@ class IrSem:
                         raise Unsupported("external handler returned no value")
                     r = bvv(r, bits_of(ins.ty, pb))
             else:
-                for a in args:
-                    if a.get_id() in self.prov and self.prov[a.get_id()].kind == "stack":
-                        self.escaped.add(id(self.prov[a.get_id()]))
+                for a in ins.arguments:
+                    _h = self.home_of(a, env)
+                    if _h is not None and _h.kind == "stack":
+                        self.escaped.add(id(_h))
                 self.trace.append((callee.name, [z3.simplify(a) for a in args]))
                 r = None
                 if k == "FunctionCall":
